@@ -79,6 +79,61 @@ def is_scalar_field(v):
     return isinstance(v, RatFunc)
 
 
+SAT = {"num::SaturatingAdd": "saturating_add", "num::SaturatingSub": "saturating_sub"}
+
+def check_saturating(F, rep, S):
+    """SHAPE-OP (saturating): `SaturatingAdd/SaturatingSub` on a colour, a hue or an Alpha apply the scalar operation *of the same name* to
+    every component with the matching component (or the scalar) of the other operand, in that operand order."""
+    n = 0
+    for tr, m in SAT.items():
+        for im, ms in impl_methods(F, tr):
+            adt = im.get("self_adt")
+            if adt not in F.adt_by_path or adt.startswith(("cast::", "convert::")):
+                continue
+            b = ms.get(m)
+            if b is None:
+                continue
+            key = "%s[%s%s]" % (tr.split("::")[-1], im["self_s"], "," + im["trait_args_s"][0] if im["trait_args_s"] else "")
+            n += 1
+            try:
+                args = S.args(b, ["a", "b"])
+                v, _ = S.ev.eval_body(b, args)
+            except (Opaque, poly.TooBig) as ex:
+                rep.fail("SHAPE-OP", key, "uninterpretable: %s" % ex, F.loc(b))
+                continue
+            a, o = args
+            problems = []
+
+            def walk(va, aa, oo, path):
+                if alg._is_phantom(aa):
+                    return
+                if isinstance(aa, Struct) and not isinstance(va, Struct) and aa.path.startswith("hues::"):
+                    # the hue newtype's own saturating impl (checked as its own instance), applied to the two hues / the hue and the scalar
+                    r = repr(va)
+                    hue_a = "%s{0: %s}" % (aa.path.split("::")[-1], repr(aa.fields["0"]))
+                    hue_o = ("%s{0: %s}" % (oo.path.split("::")[-1], repr(oo.fields["0"]))) if isinstance(oo, Struct) else repr(oo)
+                    if not re.match(r"^(?:[\w:<> ,]*::)?%s(?:<[^()]*>)?\(%s, %s\)$" % (m, re.escape(hue_a), re.escape(hue_o)), r):
+                        problems.append("%s = %s, expected %s(%s, %s)" % (path, r[:100], m, hue_a, hue_o))
+                    return
+                if isinstance(aa, Struct):
+                    if not isinstance(va, Struct) or set(va.fields) != set(aa.fields):
+                        problems.append("%s: result is not a %s literal" % (path or "self", aa.path.split("::")[-1]))
+                        return
+                    for k, x in aa.fields.items():
+                        y = oo.fields[k] if isinstance(oo, Struct) and k in oo.fields else oo
+                        walk(va.fields[k], x, y, (path + "." + k) if path else k)
+                    return
+                r = repr(va)
+                mm = re.match(r"^(?:[\w:<> ,]*::)?(saturating_\w+)(?:<[^()]*>)?\((.*)\)$", r)
+                # uninterpreted scalar op: name and the two operands in order
+                want_args = "%s, %s" % (repr(aa), repr(oo))
+                if not mm or mm.group(1) != m or mm.group(2) != want_args:
+                    problems.append("%s = %s, expected %s(%s)" % (path, r[:80], m, want_args))
+            walk(v, a, o, "")
+            rep.ob("SHAPE-OP", key, not problems, "; ".join(problems[:3]) if problems else "every component: %s with the matching component" % m, F.loc(b), nontrivial=False)
+    rep.floor("saturating impls on colours, hues and Alpha", n, 100)
+
+
 def run(F, rep, tier="quick", extra=None, only=None):
     rep.trusted += ["rustc name resolution / type check", "operator table of rules/sym.py", "formulas of DESIGN Appendix A.10 as transcribed in rules/c10.py"]
     rep.assumptions += ["generic float component type: Stimulus::max_intensity() = 1 (checked by C03 STIM-MAX)"]
@@ -90,6 +145,7 @@ def run(F, rep, tier="quick", extra=None, only=None):
     check_wrappers(F, rep, S)
     check_schemes(F, rep, S)
     check_arith(F, rep, S)
+    check_saturating(F, rep, Session(F))
     return {"level": "other"}
 
 
